@@ -2103,9 +2103,19 @@ where
                     M::combine_mut(&mut output, out, |c, out| C::write(c, idx, out));
                 }
                 Ok(None) => {
-                    // let span = inp.span_since(&before);
-                    // We don't add an alt here because we assume the inner parser will. Is this safe to assume?
-                    // inp.add_alt([ExpectedMoreElements(Some(C::LEN - idx))], None, span);
+                    // The inner parser usually leaves an alt behind, but it may also have stopped without failing
+                    // (for example, because `at_most` was reached), so make sure that an error is pending.
+                    if inp.errors.alt.is_none() {
+                        let before = inp.save();
+                        let found = inp.next_maybe_inner();
+                        let span = inp.span_since(before.cursor());
+                        inp.rewind(before);
+                        inp.add_alt(
+                            [DefaultExpected::SomethingElse],
+                            found.map(|f| f.into()),
+                            span,
+                        );
+                    }
                     // SAFETY: We're guaranteed to have initialized up to `idx` values
                     M::map(output, |mut output| unsafe {
                         C::drop_before(&mut output, idx)
